@@ -1,7 +1,8 @@
 //! Bounded stand-in / failing-input search for unit U4 (permutation group) — NOT a proof.
 //! host: src/group/mod.rs
 //! Bound: every generator set of size <= 2 over the 24 permutations of 4 slots (and all 6 of 3 slots):
-//! contains / count / all_perms / orbit / add_set compared with brute-force closure.
+//! contains / count / all_perms / orbit / add_set compared with brute-force closure; incremental growth (new with one
+//! generator, then add of a second): every ordered pair over S4, 120 x 15 (deep: 120 x 30) pairs over S5, 45 pairs over S6.
 use crate::*;
 use super::*;
 
@@ -76,6 +77,34 @@ pub fn run(only: &[String]) -> Vec<String> {
                     if grew != (cl2.len() > cl.len()) || g2.count() != cl2.len() { nf[5] += 1; fails.push(format!("FAIL Group::add_set C10:add_set {} add({:?}) reported growth={} count={} expected growth={} count={}", desc, extra, grew, g2.count(), cl2.len() > cl.len(), cl2.len())); break; }
                 }
             }
+        }
+    }
+    // incremental growth (Group::add after Group::new), where the order of arrival matters: every ordered pair over S4; over S5
+    // every first generator with the 10 transpositions and 10 three-cycles as second one (deep: all 120); over S6 the
+    // first generators (01)(23)(45), (012)(345), (01)(23) with every transposition
+    if (want("Group::add_set") || want("Group::add") || want("Group::new")) && nf[5] < 3 {
+        let mut cases: Vec<(usize, Vec<usize>, Vec<usize>)> = Vec::new();
+        let s4 = perms(4);
+        for a in &s4 { for b in &s4 { cases.push((4, a.clone(), b.clone())); } }
+        let s5 = perms(5);
+        let cyc = |p: &Vec<usize>| { let mut seen = vec![false; p.len()]; let mut lens = Vec::new(); for i in 0..p.len() { if !seen[i] { let mut l = 0; let mut j = i; while !seen[j] { seen[j] = true; j = p[j]; l += 1; } if l > 1 { lens.push(l); } } } lens.sort(); lens };
+        let seconds: Vec<Vec<usize>> = s5.iter().filter(|p| { let c = cyc(p); c == vec![2] || c == vec![3] }).cloned().collect();
+        for a in &s5 { for (k, b) in seconds.iter().enumerate() { if deep || cyc(b) == vec![2] || k % 2 == 0 { cases.push((5, a.clone(), b.clone())); } } }
+        let s6_first: Vec<Vec<usize>> = vec![vec![1, 0, 3, 2, 5, 4], vec![1, 2, 0, 4, 5, 3], vec![1, 0, 3, 2, 4, 5]];
+        for a in &s6_first { for i in 0..6 { for j in (i + 1)..6 { let mut b: Vec<usize> = (0..6).collect(); b.swap(i, j); cases.push((6, a.clone(), b)); } } }
+        for (n, a, b) in cases {
+            if nf[5] >= 3 { break; }
+            verif_case(format!("Group::add: omega=$0..${} first generator {:?}, then add {:?}", n - 1, a, b));
+            let omega: SmallHashSet<Slot> = (0..n as u32).map(sl).collect();
+            let identity = SlotMap::identity(&omega);
+            let mut g: Group<Perm> = Group::new(&identity, [to_perm(&a)].into_iter().collect());
+            let c1 = closure(n, &vec![a.clone()]);
+            let grew = g.add(to_perm(&b));
+            let cl = closure(n, &vec![a.clone(), b.clone()]);
+            let mut bad = grew != (cl.len() > c1.len()) || g.count() != cl.len();
+            if !bad && n <= 5 { for q in &perms(n) { if g.contains(&to_perm(q)) != cl.contains(q) { bad = true; break; } } }
+            if !bad && n == 6 { for q in &cl { if !g.contains(&to_perm(q)) { bad = true; break; } } }
+            if bad { nf[5] += 1; fails.push(format!("FAIL Group::add_set C10:add_set omega=$0..${} generators [{:?}] then add({:?}): reported growth={} count={}, the generated group has {} elements (growth {})", n - 1, a, b, grew, g.count(), cl.len(), cl.len() > c1.len())); }
         }
     }
     fails
